@@ -1,4 +1,5 @@
 """C20 - the Graphviz export is a faithful drawing of the labelled Hasse diagram."""
+import functools
 import re
 from collections import Counter
 from core import guard
@@ -48,8 +49,40 @@ def parse_body(body):
     return items
 
 
+def _opt_second(names, sep=', '):
+    return 'L(%s)' % sep.join(names)
+
+
+def _opt_flag(names, upper=False, *, tail='!'):
+    text = '+'.join(names) + tail
+    return text.upper() if upper else text
+
+
+def _varargs(*args, **kwargs):
+    if len(args) != 1 or kwargs:
+        return 'called with %d positional and %d keyword arguments' % (len(args), len(kwargs))
+    return 'V:%s' % ' '.join(args[0])
+
+
+class _Labeller:
+    """a callable object whose __call__ has further optional parameters"""
+
+    def __init__(self, sep):
+        self.sep = sep
+
+    def __call__(self, names, concept=None, index=None):
+        if concept is not None or index is not None:
+            return 'unexpected extra argument'
+        return self.sep.join(names)
+
+
 CALLBACKS = [
     ('default', None, None),
+    # ordinary names-only callbacks of other signatures: optional further parameters, *args wrappers, partials, callable objects,
+    # bound builtins (the text must be callback(names), whatever else the callable could accept)
+    ('optional-second-parameter', _opt_second, _opt_flag),
+    ('varargs-wrapper', _varargs, _Labeller('~')),
+    ('partial / bound builtin', functools.partial(_opt_flag, tail='?'), ', '.join),
     ('braces', lambda names: '{%s}' % ','.join(names), lambda names: '<%s>' % ';'.join(names)),
     ('count', lambda names: '%d objs' % len(list(names)), lambda names: ''),
     ('objects-only', lambda names: '[%s]' % '+'.join(names), None),
